@@ -149,8 +149,12 @@ def extract_undo(fx, rep):
 
 def check_forward(fx, rep, undo):
     n = 0
+    from symx import KNOWN_PRIVATE
+    # a new private method is a piece of its callers (symx follows it there), not a unit of its own
     fns = [f for f in fx.fns_all if f.nq.startswith(JS) and f.kind in ('Fn', 'AssocFn') and f.name not in SKIP
-           and f.crate and not f.crate.endswith('-test')]
+           and f.crate and not f.crate.endswith('-test')
+           and not (str(f.d.get('vis', '')).startswith('Restricted') and f.nq not in KNOWN_PRIVATE and len(f.blocks) <= 40
+                    and any(True for _ in fx.callers_of(f.nq)))]
     for f in sorted(fns, key=lambda x: x.nq):
         rep.fn(f)
         try:
